@@ -43,10 +43,15 @@ shutil.copy(demo_src, os.path.join(dst, "demo_test.go.txt"))
 shutil.copy(os.path.join(src, "demo_path.txt"), os.path.join(dst, "demo_path.txt"))
 meta = json.load(open(os.path.join(src, "meta.json")))
 meta["confirmed_by_me"] = {k: v for k, v in res.items() if not k.endswith("_tail")}
-# run my check against it in /repo
-rc, out = sh("git status --porcelain --untracked-files=no", "/repo")
-assert out.strip() == "", "repo dirty: " + out
-rc, out = sh("git apply %s" % patch, "/repo")
+# run my check against it: in a scratch worktree of /repo's HEAD (VERIF_REPO), so that /repo itself stays
+# untouched and other checks can run meanwhile; evidence of seeded runs goes to a scratch directory
+SEED_REPO = "/tmp/repo_seed_" + name
+sh("git -C /repo worktree remove --force %s" % SEED_REPO, "/repo")
+rc, out = sh("git -C /repo worktree add -q --detach %s HEAD" % SEED_REPO, "/repo")
+assert rc == 0, out
+ENV["VERIF_REPO"] = SEED_REPO
+ENV["VERIF_EVIDENCE_DIR"] = "/tmp/evidence_seed_" + name
+rc, out = sh("git apply %s" % patch, SEED_REPO)
 if rc != 0:
     meta["check"] = {"applied_to_repo": False, "why": out[-300:]}
 else:
@@ -54,6 +59,7 @@ else:
     lines = [l for l in out.splitlines() if l.startswith(("VIOLATION", "KNOWN", "SPURIOUS", "INCOMPLETE", "UNSUPPORTED", "ERROR", prop + " tier")) or l.startswith("  ")]
     meta["check"] = {"applied_to_repo": True, "cmd": "./check %s --tier %s" % (prop, tier), "exit": rc, "detected": rc == 1, "output": lines[:12]}
     print("\n".join(lines[:8]))
-sh("git checkout -- .", "/repo")
+sh("git -C /repo worktree remove --force %s" % SEED_REPO, "/repo")
+shutil.rmtree("/tmp/evidence_seed_" + name, ignore_errors=True)
 json.dump(meta, open(os.path.join(dst, "meta.json"), "w"), indent=1)
 print("kept", dst, "detected" if meta["check"].get("detected") else "MISSED")
